@@ -348,6 +348,11 @@ def run(pid, tier):
         import storemc
         walks = storemc.walk_histories(pid, tier, sc, seed)
         hists += walks
+        cover_info = None
+        if pid == "C12":
+            cov, total = storemc.names_cover(tier, seed)
+            hists += cov
+            cover_info = {"names_transition_cover": {"pairs_live_set_x_transaction": total, "histories": len(cov), "complete": True}}
         outs = S.run_driver(drv, hists, sc)
         byid = {o["id"]: o for o in outs}
         hbyid = {h["id"]: h for h in hists}
@@ -400,6 +405,8 @@ def run(pid, tier):
                    histories_random=len(hists) - len(walks), histories_from_tlc=len(walks),
                    events_validated=vstats["events"], trace_states=vstats["states"], events_by_kind=dict(opcount),
                    checks=PROP_CHECKS[pid], other_check_failures=len(others), known_findings_seen=sorted(seen_known))
+        if cover_info:
+            cov.update(cover_info)
         C.write_evidence(pid, tier, LEVEL, cov, time.time() - t0, nviol,
                          assumptions=["sequential histories: one call at a time (interleavings are the protocol family's business)",
                                       "names restricted to the generated universe; update indices < 2^31",
